@@ -15,6 +15,21 @@ CLAIMED = {
  'C01': dict(engine='EX-A', technique='explicit-state BFS over event histories executed on the real library (virtual sockets/clock/random tape), state hashing, closure of every state, token/allocator ledgers + ASan/UBSan as oracles',
    text='Every history of the life-udp / life-tcp / life-reentrant families (all ten entry points, re-entrant callbacks that start requests or cancel, replies of 5 kinds, timers, cancel, destroy, server-list changes, one (quick) or two (thorough) injected socket faults) up to the stated depth is executed on the real code; in every reached state and after closing it (silence, timers, destroy) each request token was completed exactly once, never after destroy, cancel/destroy completed everything accepted, the allocator ledger is empty and the sanitizers are silent. Bounded-exhaustive, not a proof: depth, number of requests/servers and deviations are bounded.',
    note='Trusted: harness world model (sockets/clock), own DNS encoder, canonical state key (audited by running with de-duplication off), clang ASan/UBSan. Assumes a well-behaved single-threaded application; threads are C11.', ref='4/C01'),
+ 'C05': dict(engine='EX-A', technique='explicit-state BFS over event histories with adversary packets; provenance markers + reference acceptance rule as oracle',
+   text='Family adversary: 2 servers / USEVC, EDNS(+cookies) / 0x20 / stay-open, cache on, up to 2 requests, genuine replies and every forgery kind (wrong id, name, type, class, letter case under 0x20, source address, other open socket, missing cookie after support was proven, wrong client cookie) injected at every point of the query life (before the first reply, after a timeout and re-send to the other server, after TC->TCP, after completion, after a cache insert). Every record delivered to a callback or served from the cache carries a marker naming the packet it came from; the oracle demands that packet is genuine, arrived on the descriptor of the latest transmission of that query id, from that server. Bounded-exhaustive within depth/forgery bounds.',
+   note='Trusted: harness encoder (replies are built from the decoded transmission), marker extraction through the public getters. Cookie validity itself is decided by C17.', ref='4/C05'),
+ 'C06': dict(engine='EX-A', technique='explicit-state BFS over per-attempt outcome sequences x configurations; transmission ledger per query id, timeout-gap oracle, UBSan',
+   text='Family retry: 12 configurations over servers 1-3, tries 1-3, timeout 1..2000 ms, maxtimeout unset/1/2500/3000/5000, rotate, udp_max_queries, EDNS/USEVC/0x20; per attempt the outcome is chosen from silence(timer), SERVFAIL, REFUSED, NOTIMP, FORMERR without OPT, TC, BADCOOKIE, success, socket/connect/send/recv failure, server-list change in flight; jitter and rotate draws enumerated. Oracle: transmissions per query id <= servers x tries + 5, closure terminates with a definite status, gap before a timeout-triggered resend >= min(base, cap) and <= maxtimeout, UBSan silent. Family retry-long runs tries 64/65/70 with silent servers to completion.',
+   note='Trusted: virtual clock (timer fires exactly at the hint). Learned timeouts: lower bound relaxes to min(250 ms, cap) once a server has 3 accepted samples.', ref='4/C06'),
+ 'C07': dict(engine='EX-A', technique='explicit-state BFS; timeout hint compared with the earliest deadline of all outstanding queries in every state; early/on-time timer differential',
+   text='EX-A part of C07 (event-loop applications): in every state of the life-udp, life-tcp and retry families ares_timeout() is evaluated for maxtv in {NULL, 0, 1 ms, 10 s}: never negative, never above the caller maximum, never later than the earliest deadline computed over ALL outstanding queries (not only the head of the timeout index); every timer event is first processed one microsecond early (nothing may be re-sent or completed) and then on time (something must be re-sent or completed); a request that is outstanding while the library offers no hint and no watched descriptor is ready is a liveness violation. The event-thread half of the property (no application action needed at all) is decided by EX-B and is listed in DESIGN.md; it is not part of this check yet.',
+   note='Deadlines are read from the private query structs by the single peek translation unit; the event-thread/back-end part is outside this check.', ref='4/C07'),
+ 'C08': dict(engine='EX-A', technique='explicit-state BFS over request/reply/time/reconfiguration histories against a reference cache keyed by (flags,type,class,lower-case name)',
+   text='Family cache: max_ttl in {3600,5,0}, 0x20 on/off, 1-2 servers; request menu = a base question and its near misses (case, type, class, RD off, CD on, trailing dot, search, getaddrinfo, legacy ares_query, send_dnsrec); replies with TTL 100/5/0, three-record TTL mix, NXDOMAIN with/without SOA, NODATA, TC, SERVFAIL; time advances 1/4/6/3601 s; server-list change (same, reorder, membership) and reinit. Oracle (only-if direction): a request completed with zero transmissions must be explained by a packet the library read earlier with the same key, not truncated, rcode NOERROR/NXDOMAIN, not older than min(max_ttl, its TTLs), not from before a flush; every TTL visible to the callback = original - seconds cached; nothing served when max_ttl = 0.',
+   note='Age is measured from the virtual time the library read the packet. addrinfo/hostent TTL consumers are covered by C13.', ref='4/C08'),
+ 'C10': dict(engine='EX-A', technique='explicit-state BFS with a fault at every socket call site; per-descriptor automaton + notification-stream automaton + interest-set comparison as oracles',
+   text='Families sock (UDP with per-socket query limits, TCP immediate/in-progress connect, fast open, stay-open, legacy ares_fds and ares_getsock applications, local bind, pending-write callback), life-udp and life-reentrant: every history incl. one (quick) or two (thorough) failures of socket/setsockopt/bind/connect/getsockname/send (refused, would-block, short)/recv. Oracle: each descriptor closed exactly once, none open after destroy, no call on a closed descriptor, UDP transmissions per socket <= limit, sock-state stream never after (0,0) / exactly one (0,0) iff announced, at every return to the application each descriptor with outstanding queries is announced readable and each TCP descriptor with unsent bytes or unfinished connect writable, ares_fds/ares_getsock report only open descriptors the channel holds.',
+   note='Which descriptors carry outstanding queries is read from the channel by the peek translation unit. UDP would-block datagrams are left to the retry timer by design (observation, not asserted).', ref='4/C10'),
 }
 
 NOT_YET = {
